@@ -5,6 +5,7 @@ expressions together with the matching `sd` expression of the model (SysData.v).
   * every tuple arity found in the source (SrcParams.tuple_arities, default 1..26), two tuples each;
   * every leaf kind at every position of arities 1,2,3,5,8,13,21,26;
   * nestings up to depth 3;
+  * every ordered pair of accessor kinds on one resource (flat and nested);
   * derived named / tuple structs with 1..40 fields, extra lifetimes, type parameters, where-clauses.
 Deterministic (fixed PRNG seed): the same file on every run for the same arity list."""
 import os
@@ -92,6 +93,13 @@ def main():
     # (c) nestings to depth 3
     for _ in range(70):
         cases.append(rand_nested(rnd, 3))
+    # (c2) every ordered pair of accessor kinds on ONE resource (members that need the same resource twice:
+    #      shared+shared is fine, anything with an exclusive member must panic), flat, with a spacer, and nested
+    acc_kinds = [k for k in LEAF_KINDS if k not in ("U", "P")]
+    for k1 in acc_kinds:
+        for k2 in acc_kinds:
+            cases.append(tup([leaf(k1, 0), leaf(k2, 0)]))
+            cases.append(tup([leaf(k1, 1), leaf("U", 0), tup([leaf(k2, 1)])]))
     # (d) derived structs
     sid = 0
     for nf in [1, 2, 3, 4, 6, 9, 14, 20, 27, 33, 40]:
